@@ -27,6 +27,28 @@ func main() {
 			out[key+"_err"] = err.Error()
 		}
 		out[key+"_len"] = len(insts)
+		// the same policy value again, and a copy of it (what Dump followed by LoadFilter does)
+		for i, q := range []*seccomp.Policy{&p, {DefaultAction: p.DefaultAction, Syscalls: p.Syscalls}} {
+			_ = i
+			cp := *q
+			if i == 0 {
+				cp = p // a by-value copy carries whatever the first attempt left inside the value
+			}
+			insts2, err2 := cp.Assemble()
+			k := key + "_again"
+			if i == 1 {
+				k = key + "_fresh_copy"
+			}
+			if err2 != nil {
+				out[k+"_err"] = err2.Error()
+			}
+			out[k+"_len"] = len(insts2)
+		}
+		insts3, err3 := p.Assemble()
+		if err3 != nil {
+			out[key+"_third_err"] = err3.Error()
+		}
+		out[key+"_third_len"] = len(insts3)
 	}
 	try("default_only", seccomp.Policy{DefaultAction: seccomp.ActionAllow, Syscalls: []seccomp.SyscallGroup{{Action: seccomp.ActionErrno}}})
 	try("named", seccomp.Policy{DefaultAction: seccomp.ActionAllow, Syscalls: []seccomp.SyscallGroup{{Action: seccomp.ActionErrno, Names: []string{"read"}}}})
